@@ -125,9 +125,47 @@ def interrupt(fails):
                         fails.append(f"interrupt at {at}: recorded prefix of chain {c} differs from the uninterrupted run")
 
 
+def rows_vs_states(fails):
+    """EVERY trace / statistics row against the state the chain was in after that iteration, with transitions that may return the SAME state object
+    updated in place (momentum refreshes do; a rejected Metropolis proposal returns its argument): a recording transition wrapped around the real
+    ones logs the post-iteration (pos, mom, hamiltonian) independently of the trace functions."""
+    for seed in (3, 7):
+        for step in (0.3, 1.7):  # 1.7: many rejections
+            sysm = mici.systems.EuclideanMetricSystem(lambda q: 0.5 * q @ q + 0.25 * np.sum(q**4), grad_neg_log_dens=lambda q: q + q**3)
+            integ = mici.integrators.LeapfrogIntegrator(sysm, step_size=step)
+            s = mici.samplers.StaticMetropolisHMC(sysm, integ, np.random.default_rng(seed), n_step=2)
+            log = []
+            real = s.transitions["integration_transition"]
+
+            class Rec:
+                state_variables = real.state_variables
+                statistic_types = real.statistic_types
+
+                def sample(self, state, rng):
+                    out, stats = real.sample(state, rng)
+                    log.append((np.array(out.pos, copy=True), np.array(out.mom, copy=True), float(sysm.h(out)), out is state))
+                    return out, stats
+            s.transitions["integration_transition"] = Rec()
+            n = 25
+            o = s.sample_chains(n_warm_up_iter=0, n_main_iter=n, init_states=[np.array([0.5, -0.2])], adapters=None, display_progress=False,
+                                trace_funcs=[lambda st: {"pos": st.pos, "mom": st.mom, "hamiltonian": sysm.h(st)}])
+            same = sum(1 for e in log if e[3])
+            for i in range(n):
+                for key, j in (("pos", 0), ("mom", 1), ("hamiltonian", 2)):
+                    if not np.allclose(np.array(o.traces[key][0])[i], log[i][j], rtol=1e-12, atol=1e-12):
+                        fails.append(f"seed {seed} step {step}: trace '{key}' row {i} is {np.array(o.traces[key][0])[i]} but the chain state after iteration {i} has {log[i][j]} "
+                                     f"({same} of {n} iterations returned the same state object updated in place)")
+                        break
+                else:
+                    continue
+                break
+
+
 def main():
     mode = sys.argv[1] if len(sys.argv) > 1 else "all"
     fails = []
+    if mode in ("rows", "all"):
+        rows_vs_states(fails)
     if mode in ("records", "all"):
         records(fails)
     if mode in ("zero_stage", "all"):
